@@ -34,6 +34,8 @@ pub enum Defect {
     MissingDate,
     HostUnsigned,
     RequirementUnmet,
+    /// a header matching a declared (mixed-case) prefix is present but not signed
+    PrefixRequirementUnmet,
     MalformedDate,
     Expired,
     Future,
@@ -74,6 +76,7 @@ pub const ALL_DEFECTS: &[Defect] = &[
     Defect::MissingDate,
     Defect::HostUnsigned,
     Defect::RequirementUnmet,
+    Defect::PrefixRequirementUnmet,
     Defect::MalformedDate,
     Defect::Expired,
     Defect::Future,
@@ -105,7 +108,7 @@ impl Defect {
             WrongAlgorithm => R_ALGORITHM,
             ParamNoEquals => R_SYNTAX,
             MissingCredential | MissingSignedHeaders | MissingSignature | MissingDate => R_MISSING,
-            HostUnsigned | RequirementUnmet => R_SIGNED_HEADERS,
+            HostUnsigned | RequirementUnmet | PrefixRequirementUnmet => R_SIGNED_HEADERS,
             MalformedDate => R_DATE,
             Expired => R_EXPIRED,
             Future => R_FUTURE,
@@ -188,8 +191,9 @@ pub fn build(dc: &DefectCase, defects: &[Defect]) -> Case {
         plan.spec.sep = (dc.variant >> 6) + if dc.variant & 0x08 != 0 { 2 } else { 0 };
     }
     plan.cfg.fold = true;
-    plan.cfg.reqs = Reqs { always: vec!["X-Must".into()], if_in_request: vec![], prefixes: vec![], route: dc.variant % 3 };
+    plan.cfg.reqs = Reqs { always: vec!["X-Must".into()], if_in_request: vec![], prefixes: vec!["X-Pre-".into()], route: dc.variant % 3 };
     plan.logical.headers.push(("x-must".into(), vec![B::from("1")]));
+    plan.logical.headers.push(("x-pre-one".into(), vec![B::from("p")]));
     plan.logical.method = if dc.variant % 2 == 0 { "POST".into() } else { "GET".into() };
     plan.form = Some(vec![(B::from("f"), B::from("1"))]);
     let mut base = plan.base();
@@ -218,7 +222,7 @@ pub fn build(dc: &DefectCase, defects: &[Defect]) -> Case {
     }
     // --- signing inputs
     let mut spec = plan.spec.clone();
-    spec.signed_headers = vec!["host".into(), "x-must".into()];
+    spec.signed_headers = vec!["host".into(), "x-must".into(), "x-pre-one".into()];
     if carrier == Carrier::Header {
         spec.signed_headers.push("x-amz-date".into());
     }
@@ -227,6 +231,9 @@ pub fn build(dc: &DefectCase, defects: &[Defect]) -> Case {
     }
     if has(RequirementUnmet) {
         spec.signed_headers.retain(|h| h != "x-must");
+    }
+    if has(PrefixRequirementUnmet) {
+        spec.signed_headers.retain(|h| h != "x-pre-one");
     }
     if has(MalformedDate) {
         spec.ts_text = "20150830T123600".into(); // no zone designator
@@ -331,7 +338,9 @@ pub fn build(dc: &DefectCase, defects: &[Defect]) -> Case {
                 req.uri = format!("{}&X-Amz-Algorithm=AWS4-HMAC-SHA256", req.uri);
             }
             if has(BothCarriersEmptyAlgorithm) {
-                req.uri = format!("{}&X-Amz-Algorithm{}", req.uri, if dc.variant & 1 == 0 { "=" } else { "" });
+                // the marker of the other carrier with an empty or foreign value
+                let v = ["=", "", "=AWS4-HMAC-SHA512", "=aws4-hmac-sha256x", "=&X-Amz-Algorithm=AWS4-HMAC-SHA256"][(dc.variant % 5) as usize];
+                req.uri = format!("{}&X-Amz-Algorithm{}", req.uri, v);
             }
             if has(NoCarrier) {
                 req.headers.retain(|(n, _)| !n.eq_ignore_ascii_case("authorization"));
